@@ -3,11 +3,12 @@
    correspondence run, incl. subnormals, huge values, +/-inf and NaN).  Proved here for all inputs: totality
    and canonical results (no panic, no hang: the model is a total function and Duration * f64 has no loop),
    infinities -> bounds, NaN -> zero, and Duration * f64 = the exact real product truncated toward zero.
+   and Unit * f64 = exactly the product whenever that is a whole number of nanoseconds below 2^53 (Flocq).
    Not proved (checked against exact rationals in the correspondence run instead): the ulp bounds of
-   to_seconds / to_unit and exactness of Unit * f64 on arbitrary whole products below 2^53. *)
-From Coq Require Import ZArith Bool List.
+   to_seconds / to_unit, and Unit * f64 on products that are not whole or exceed 2^53. *)
+From Coq Require Import Reals ZArith Bool List.
 From Flocq Require Import Core.Core IEEE754.BinarySingleNaN.
-From HF Require Import MachInt GenConsts GenLeap GenUnits Duration Epoch F64 DurationF64 SignedNs DurationP F64P.
+From HF Require Import MachInt GenConsts GenLeap GenUnits Duration Epoch F64 DurationF64 SignedNs DurationP F64P F64ExactP.
 Open Scope Z_scope.
 
 Theorem C18_unit_times_float_total_and_canonical : forall u q, canon (unit_mul_f64 u q).
@@ -35,6 +36,16 @@ Theorem C18_leap_table_products_exact :
   forallb (fun e => dur_eqb (unit_mul_f64 Second (f_of_Z (snd e))) (unit_mul_i64 Second (snd e)) &&
                     dur_eqb (unit_mul_f64 Second (fadd (f_of_Z (fst e)) (f_of_Z (snd e - 1)))) (unit_mul_i64 Second (fst e + (snd e - 1)))) BUILTIN_IERS = true.
 Proof. exact leap_table_f64_products_exact. Qed.
+
+(* the real product, when it is a whole number of nanoseconds below 2^53, is returned exactly: for every finite float q
+   and every unit (Flocq: the binary64 product is exact, neither saturation test fires, the cast returns the integer) *)
+Theorem C18_unit_mul_f64_exact_whole : forall u q n,
+  is_finite q = true -> (B2R q * IZR (spec_unit_factor u) = IZR n)%R -> Z.abs n < 2 ^ 53 ->
+  canon (unit_mul_f64 u q) /\ val (unit_mul_f64 u q) = n.
+Proof. exact unit_mul_f64_exact_whole. Qed.
+Theorem C18_unit_mul_f64_of_int : forall u k, Z.abs (k * spec_unit_factor u) < 2 ^ 53 ->
+  unit_mul_f64 u (f_of_Z k) = unit_mul_i64 u k.
+Proof. exact unit_mul_f64_of_int. Qed.
 
 Example C18_nonvacuous :
   dur_mul_f64 (mkD 0 1000000000) 9223372036854775808 = D_ZERO /\           (* 1 s * -0.0 *)
